@@ -81,6 +81,7 @@ class Harness:
     def __init__(self, exe, timeout=20.0):
         self.exe, self.timeout = exe, timeout
         self.log = []
+        self.prev_log = []
         self.start()
 
     def start(self):
@@ -111,6 +112,7 @@ class Harness:
         return self._readline()
 
     def model(self, text):
+        self.prev_log = self.log          # if the process dies while replacing a model, the culprit is the previous session
         self.log = ["model\n" + text.rstrip("\n")]
         try:
             self.p.stdin.write(("model\n" + text).encode())
@@ -332,7 +334,8 @@ FWD_ORDER = ["mj_fwdPosition", "mj_sensorPos", "mj_energyPos", "mj_fwdVelocity",
 INV_ORDER = ["mj_invPosition", "mj_sensorPos", "mj_fwdVelocity", "mj_sensorVel", "mj_invConstraint", "mj_sensorAcc"]
 
 
-WITNESS_SAFE = {"time", "qpos", "qvel", "act", "history", "qacc_warmstart", "ctrl", "qfrc_applied", "xfrc_applied", "mocap_pos",
+# (history is left out: it is a structured buffer whose cursor the engine trusts)
+WITNESS_SAFE = {"time", "qpos", "qvel", "act", "qacc_warmstart", "ctrl", "qfrc_applied", "xfrc_applied", "mocap_pos",
                 "mocap_quat", "vel", "actuation", "smooth", "cfrc", "qacc", "qfrc_inverse", "sensPos", "sensVel", "sensAcc"}
 
 
@@ -727,7 +730,14 @@ def run_models(ctx, info, exe, sf, sig, nmodels, sleep, thorough, stats):
             if mi < 2 and not sleeping:
                 ctx.sample({"model_options": mdl.options, "sizes": sc.sizes, "stages_validated": n})
         except HarnessDied as e:
-            fails.append({"what": "harness died (%s)" % e, "replay": {"model": mdl.text(), "commands": h.log[1:][-80:]}})
+            rp = {"model": mdl.text(), "commands": h.log[1:][-80:]}
+            if len(h.log) <= 1 and h.prev_log:
+                rp = {"note": "died while loading the next model; previous session:", "model": h.prev_log[0][6:],
+                      "commands": h.prev_log[1:][-120:], "next_model": mdl.text()}
+                if os.environ.get("C01_DEBUG_DUMP"):
+                    json.dump({"model": h.prev_log[0][6:], "commands": h.prev_log[1:], "next_model": mdl.text()},
+                              open(os.environ["C01_DEBUG_DUMP"], "w"))
+            fails.append({"what": "harness died (%s)" % e, "replay": rp})
             h.close()
             h = Harness(exe)
         except RuntimeError as e:
